@@ -988,8 +988,8 @@ func callBuiltin(caller *frame, fn *ssa.Builtin, args []value) value {
 			}
 			return arg0
 		}
-		// append([]T, ...[]T) []T
-		return append(args[0].([]value), args[1].([]value)...)
+		// append([]T, ...[]T) []T  (aggregate elements are copied, not aliased)
+		return append(args[0].([]value), cloneElems(args[1].([]value))...)
 
 	case "copy": // copy([]T, []T) int or copy([]byte, string) int
 		src := args[1]
@@ -1010,7 +1010,7 @@ func callBuiltin(caller *frame, fn *ssa.Builtin, args []value) value {
 				journal = append(journal, jentry{addr: &dst[i], old: dst[i]})
 			}
 		}
-		return copy(dst, src.([]value))
+		return copy(dst, cloneElems(src.([]value)))
 
 	case "close": // close(chan T)
 		close(args[0].(chan value))
@@ -1476,7 +1476,7 @@ func min(x, y value) value {
 	}
 
 	// return (y < x) ? y : x
-	if binop(token.LSS, nil, y, x).(bool) {
+	if decideBool(nil, binop(token.LSS, nil, y, x)) {
 		return y
 	}
 	return x
@@ -1491,7 +1491,7 @@ func max(x, y value) value {
 	}
 
 	// return (y > x) ? y : x
-	if binop(token.GTR, nil, y, x).(bool) {
+	if decideBool(nil, binop(token.GTR, nil, y, x)) {
 		return y
 	}
 	return x
@@ -1565,4 +1565,47 @@ func symRuneToString(t_src types.Type, x *sym) value {
 	hi := binop(token.OR, k, binop(token.SHR, k, x, cst(6)), cst(0xC0))
 	lo := binop(token.OR, k, binop(token.AND, k, x, cst(0x3F)), cst(0x80))
 	return mkStr([]value{conv(u8, t_src, hi), conv(u8, t_src, lo)})
+}
+
+// cloneVal copies struct and array values (value semantics); everything else is shared.
+func cloneVal(v value) value {
+	switch v := v.(type) {
+	case structure:
+		a := make(structure, len(v))
+		for i := range v {
+			a[i] = cloneVal(v[i])
+		}
+		return a
+	case array:
+		a := make(array, len(v))
+		for i := range v {
+			a[i] = cloneVal(v[i])
+		}
+		return a
+	}
+	return v
+}
+
+// cloneElems returns the elements of s with aggregates copied (used by copy and append so that
+// slice elements of struct/array type never alias each other, and overlapping copies behave
+// like memmove).
+func cloneElems(s []value) []value {
+	agg := false
+	for _, v := range s {
+		switch v.(type) {
+		case structure, array:
+			agg = true
+		}
+		if agg {
+			break
+		}
+	}
+	if !agg {
+		return s
+	}
+	r := make([]value, len(s))
+	for i, v := range s {
+		r[i] = cloneVal(v)
+	}
+	return r
 }
